@@ -9,7 +9,7 @@ From OV Require Import Base.Panic Base.Arith Base.RoundModel Model.Vector Model.
 Import ListNotations.
 Local Open Scope R_scope.
 
-Notation OX := (NReal AFlx).
+Local Notation OX := (NReal AFlx).
 
 Definition Fq (p : list R) : res (list R) := let* a := rd p 0 in let* b := rd p 1 in Ok [xmul (xmul a a) b].
 Definition fq (p : list R) : R := nth 0 p 0 * nth 0 p 0 * nth 1 p 0.
@@ -60,3 +60,26 @@ Qed.
 Lemma fd_optimal_witness : 0 < 4 /\ 0 < 4 * ux.
 Proof. pose proof ux_range. split; [lra|]. unfold ux in *. 
   assert (0 < Flocq.Core.Raux.bpow Flocq.Core.Zaux.radix2 (-53 + 1)) by apply Flocq.Core.Raux.bpow_gt_0. lra. Qed.
+
+Lemma jacobian_tr_round_witness :
+  exists st (J : matrix AFlx) evs, jacobian_tr OX Fq [1; 2] (1 / 4) = Ok (st, J, evs).
+Proof.
+  destruct jacobian_round_witness as (J & evs & EJ & _). unfold jacobian in EJ. inv_bind EJ.
+  destruct x as [[st J'] ev]. injection EJ as -> ->. exists st, J, evs. exact E.
+Qed.
+
+(* a function with coordinate-wise Lipschitz constants 3 and 2 *)
+Definition flin (p : list R) : R := 3 * nth 0 p 0 - 2 * nth 1 p 0.
+Definition Llin (k : nat) : R := nth k [3; 2] 0.
+
+Lemma drift_lipschitz_witness :
+  (0 < length [1; 2])%nat /\ (forall k, 0 <= Llin k) /\
+  forall p, length p = length [1; 2] ->
+    Rabs (flin p - flin (upd_list [1; 2] 0 (nth 0 [1; 2] 0 + 1 / 4))) <=
+      Rsum (length [1; 2]) (fun k => Llin k * Rabs (nth k p 0 - nth k (upd_list [1; 2] 0 (nth 0 [1; 2] 0 + 1 / 4)) 0)).
+Proof.
+  split; [cbn; lia|]. split.
+  - intros [|[|[|k]]]; cbn; lra.
+  - intros [|a [|b [|? ?]]]; try discriminate. intros _. cbn. unfold flin. cbn.
+    unfold Rabs. repeat destruct Rcase_abs; lra.
+Qed.
